@@ -108,6 +108,18 @@ public:
    std::string _moved;    // bytes moved by the calls since Load()
 };
 
+// ---- deterministic WebSocket masking keys.  The client picks its key with GetInsecurePseudoRandomNumber32(); the harness
+// is linked with -Wl,--wrap=<that symbol> (checks/c03.py extra_flags), so calls coming from the library land here: while the
+// case supplied keys (head WC:<hexkey,hexkey,..>) they are handed out in order, otherwise the real generator is used.
+// No change to /repo is needed for this.
+static std::deque<uint32> g_ws_keys;
+extern "C" uint32 __real__ZN6muscle31GetInsecurePseudoRandomNumber32Ej(uint32 maxVal);
+extern "C" uint32 __wrap__ZN6muscle31GetInsecurePseudoRandomNumber32Ej(uint32 maxVal)
+{
+   if (g_ws_keys.empty() == false) {const uint32 k = g_ws_keys.front(); g_ws_keys.pop_front(); return k;}
+   return __real__ZN6muscle31GetInsecurePseudoRandomNumber32Ej(maxVal);
+}
+
 // packet-style (UDP-like) transport: whole packets, a script entry of 0 = would-block, >0 = move the packet
 class ScriptPacketIO : public PacketDataIO
 {
@@ -399,7 +411,14 @@ static void run_case(int k, const std::string & line)
       else if (kind == 'S') {sgw.SetRef(new SLIPFramedDataMessageIOGateway); rgw.SetRef(new SLIPFramedDataMessageIOGateway);}
       else {fprintf(stderr, "bad head [%s]\n", line.c_str()); exit(2);}
       // gateways whose wire format is not (yet) modelled in Coq run for the end-to-end oracle only
-      const bool oracle_only = (packet_mode)||(stress_mode)||(head[0] == "WC")||((kind == 'P')&&(head.size() < 5));   // WC: the client's masking keys are random
+      // WC without keys in the head: the client's masking keys are random, oracle only
+      const bool oracle_only = (packet_mode)||(stress_mode)||((head[0] == "WC")&&(head.size() < 2))||((kind == 'P')&&(head.size() < 5));
+      g_ws_keys.clear();
+      if ((head[0] == "WC")&&(head.size() >= 2))
+      {
+         std::vector<std::string> ks = split(head[1], ',');
+         for (size_t i=0; i<ks.size(); i++) {std::string kb = unhex(ks[i]); uint32 kv = 0; if (kb.size() == 4) {memcpy(&kv, kb.data(), 4); g_ws_keys.push_back(kv);}}
+      }
       DataIORef sref;
       if (stress_mode)
       {
@@ -582,7 +601,7 @@ static void run_case(int k, const std::string & line)
             if (got.size() != ns) orc << k << " ORACLE FAIL all bytes moved but " << got.size() << " of " << ns << " items delivered\n";
          }
       }
-      sgw.Reset(); rgw.Reset();
+      sgw.Reset(); rgw.Reset(); g_ws_keys.clear();
       if ((oracle_only)&&(getenv("GW_VERBOSE") == NULL)) {o.str(""); o << "oracle-only";}
    }
    printf("%d %s\n", k, o.str().c_str());
